@@ -466,6 +466,9 @@ def run(ctx, rec):
         bases.append((f"random #{k}", spec.random_design(rng, max_modules=3)))
     if ctx.nshards > 1:
         bases = bases[ctx.shard:: ctx.nshards]
+    for _, base in bases:
+        for m in base["modules"]:
+            m.pop("pre_conns", None)  # (connections made first and replaced later are C01 / C04 material; here they would hide a dropped one)
     for k, (label, base) in enumerate(bases):
         if k % 4 == 0:
             after_failed_parent(rec, label, base)
@@ -494,6 +497,11 @@ def shards(ctx):
 def replay(ctx, rec, case):
     if case.get("kind") == "after-failed-parent":
         after_failed_parent(rec, case["base"], case["design"])
+        return
+    if case["fault"] not in BY_CONSTRUCTION and refsem.validate(case["design"]) is None:
+        rec.case(key=jhash(case["design"]), nontrivial=True, sample={"fault": case["fault"], "site": case["site"], "valid_by_reference": True})
+        rec.count("mutants.discarded-still-valid")  # (the reference no longer calls this design ill-formed)
+        rec.inconclusive.append("the witness design is valid by the reference semantics: nothing to decide")
         return
     rec.case(key=jhash(case["design"]), nontrivial=True, sample={"fault": case["fault"], "site": case["site"]})
     rec.count("mutants.confirmed")
